@@ -53,6 +53,26 @@ impl Seek for Sink {
     }
 }
 
+/// decode through a source that hands the bytes out in the given read sizes (fill_buf / consume on the FLAC reader)
+fn rd_sample_chunked(bytes: &[u8], sizes: &[usize]) -> Obs {
+    let mut o = Obs { samples: vec![], end: End::Eof, ch: 0, bps: 0, rate: 0, opened: false };
+    let r = catch(|| {
+        let mut rd = match flac_codec::decode::FlacSampleReader::new(ChunkedReader::new(bytes, sizes)) {
+            Ok(r) => r,
+            Err(e) => { o.end = End::Err(err_class(&e)); return; }
+        };
+        o.opened = true;
+        loop {
+            match rd.fill_buf() {
+                Ok(buf) => { if buf.is_empty() { o.end = End::Eof; return; } let n = buf.len(); o.samples.extend_from_slice(buf); rd.consume(n); }
+                Err(e) => { o.end = End::Err(err_class(&e)); return; }
+            }
+        }
+    });
+    if let Err(p) = r { o.end = End::Panic(p); }
+    o
+}
+
 fn main() {
     hook_panics();
     let seed = env_seed();
@@ -173,6 +193,23 @@ fn main() {
                 out.viol("prefix-yields-unwritten-samples", &format!("prefix of {} bytes holds {} complete frames ({} samples) but the decoder delivered {} samples{}", cut, k, k * per, d.samples.len(), if d.samples[..] != pcm[..d.samples.len().min(pcm.len())] { " that differ from the PCM written" } else { "" }), &pin);
             } else if d.samples.len() < k * per {
                 out.viol("prefix-loses-complete-frame", &format!("prefix of {} bytes holds {} complete frames ({} samples) but the decoder delivered only {} samples before {}", cut, k, k * per, d.samples.len(), d.end.tag()), &pin);
+            }
+            // the same prefix through the other ways of reading it: `read` with a buffer length that does not divide
+            // the block size, the iterator, the channel reader, and a source that hands the bytes out in short reads
+            // (also one byte at a time: a pipe, a socket) — each must deliver what the fill_buf read delivers
+            if n_prefix % 7 == 0 {
+                let which = (n_prefix / 7) % 5;
+                let (name, o): (&str, Obs) = match which {
+                    0 => ("FlacSampleReader::read with an odd buffer", rd_sample_read(q, 1 + (cut * 7 + n_prefix) % 53)),
+                    1 => ("the sample iterator", rd_iter(q)),
+                    2 => ("FlacChannelReader", rd_channels(q)),
+                    3 => ("a source making one-byte reads", rd_sample_chunked(q, &vec![1usize; q.len() + 1])),
+                    _ => { let unit = 1 + (cut + n_prefix) % 9; let sizes: Vec<usize> = (0..q.len() / unit + 2).map(|i| 1 + (i * 5 + cut) % (2 * unit)).collect(); ("a source making short reads", rd_sample_chunked(q, &sizes)) }
+                };
+                if let End::Panic(p) = &o.end { out.viol_panic("prefix-decode", p, &format!("{} panics on a {}-byte prefix: {}", name, cut, p), &pin); }
+                else if o.samples != d.samples {
+                    out.viol("prefix-readers-disagree", &format!("{} delivers {} samples on a {}-byte prefix where the fill_buf read delivers {} (then {}; {} complete frames = {} samples inside the prefix)", name, o.samples.len(), cut, d.samples.len(), o.end.tag(), k, k * per), &pin);
+                }
             }
             // cross-check one other front-end now and then
             if n_prefix % 17 == 0 {
